@@ -16,6 +16,9 @@ type Value interface{}
 // FloatV is a concrete float64/float32 (BV mode has no symbolic floats).
 type FloatV struct{ f float64 }
 
+// OpaqueF is a float whose value the bit-vector mode does not track (result of float64(symbolic int)).
+type OpaqueF struct{}
+
 // RealV is a symbolic float64 in envelope mode: value is a Real-sorted term.
 type RealV struct{ t *Term }
 
